@@ -419,18 +419,27 @@ def big_slices(run, h, rng, n):
         mtg = e["parsed"]["movestogo"] or 30
         recs.append("[wc |-> %s, wi |-> %s, bc |-> %s, bi |-> %s, mtg |-> %d, sw |-> %s, sb |-> %s, swa |-> %s, sba |-> %s]" % (
             x["wtime"], x["winc"], x["btime"], x["binc"], mtg, x["slice_w"], x["slice_b"], x["slice_w_alt"], x["slice_b_alt"]))
-    mod = os.path.join(vcommon.SPEC, "BigSlices_gen.tla")
-    with open(mod, "w") as f:
-        f.write("---- MODULE BigSlices_gen ----\n\\* generated by the C09 check: literal slice events with values beyond 32 bits\nEXTENDS SliceContract, Sequences\n")
-        f.write("\\* @type: Seq({wc: Int, wi: Int, bc: Int, bi: Int, mtg: Int, sw: Int, sb: Int, swa: Int, sba: Int});\nEvents == <<\n  " + ",\n  ".join(recs) + "\n>>\n")
-        f.write("VARIABLE\n  \\* @type: Int;\n  i\nInit == i = 1\nNext == i' = IF i < Len(Events) THEN i + 1 ELSE i\n")
-        f.write("\\* @type: ({wc: Int, wi: Int, bc: Int, bi: Int, mtg: Int, sw: Int, sb: Int, swa: Int, sba: Int}) => Bool;\n")
-        f.write("Ok(e) == /\\ SliceOK(e.wc, e.wi, e.mtg, e.sw) /\\ SliceOK(e.bc, e.bi, e.mtg, e.sb) /\\ e.swa = e.sw /\\ e.sba = e.sb\n")
-        f.write("AllOk == \\A j \\in DOMAIN Events : Ok(Events[j])\n====\n")
-    try:
-        outcome = vcommon.apalache("BigSlices_gen", ["--init=Init", "--inv=AllOk", "--length=0"])
-    finally:
-        os.remove(mod)
+    # modules of at most 100 literal events each (Apalache's cost grows faster than linearly with the literal count)
+    def one_chunk(ci):
+        name = "BigSlices_gen%d_%d" % (os.getpid(), ci)
+        mod = os.path.join(vcommon.SPEC, name + ".tla")
+        chunk = recs[ci * 100:(ci + 1) * 100]
+        with open(mod, "w") as f:
+            f.write("---- MODULE %s ----\n\\* generated by the C09 check: literal slice events with values beyond 32 bits\nEXTENDS SliceContract, Sequences\n" % name)
+            f.write("\\* @type: Seq({wc: Int, wi: Int, bc: Int, bi: Int, mtg: Int, sw: Int, sb: Int, swa: Int, sba: Int});\nEvents == <<\n  " + ",\n  ".join(chunk) + "\n>>\n")
+            f.write("VARIABLE\n  \\* @type: Int;\n  i\nInit == i = 1\nNext == i' = IF i < Len(Events) THEN i + 1 ELSE i\n")
+            f.write("\\* @type: ({wc: Int, wi: Int, bc: Int, bi: Int, mtg: Int, sw: Int, sb: Int, swa: Int, sba: Int}) => Bool;\n")
+            f.write("Ok(e) == /\\ SliceOK(e.wc, e.wi, e.mtg, e.sw) /\\ SliceOK(e.bc, e.bi, e.mtg, e.sb) /\\ e.swa = e.sw /\\ e.sba = e.sb\n")
+            f.write("AllOk == \\A j \\in DOMAIN Events : Ok(Events[j])\n====\n")
+        try:
+            return vcommon.apalache(name, ["--init=Init", "--inv=AllOk", "--length=0"])
+        finally:
+            os.remove(mod)
+    from concurrent.futures import ThreadPoolExecutor as TPE
+    nchunks = (len(recs) + 99) // 100
+    with TPE(max_workers=6) as ex:
+        outs = list(ex.map(one_chunk, range(nchunks)))
+    outcome = "NoError" if all(o == "NoError" for o in outs) else "Error"
     if outcome != "NoError":
         # locate the failing events one by one (python integers are unbounded too; this only names the culprit)
         for e in evs:
@@ -485,7 +494,7 @@ def c09(tier, replay):
     shutil.rmtree(d, ignore_errors=True)
     if replay:
         return run.finish()
-    big_slices(run, h, rng, 150 if q else 1500)
+    big_slices(run, h, rng, 150 if q else 600)
     # timed part: the real delay against the plan (the colour decides which clock counts)
     binary = vcommon.build_binary(False)
     live, _ = pool(h, vcommon.seed() + 2, 6, 2, 0, 6)
